@@ -31,6 +31,7 @@ type vfC05Case struct {
 	Seed    int64      `json:"seed"`
 	WSStyle string     `json:"wsstyle,omitempty"` // one | several | fragmented
 	Elems   []vfInElem `json:"elems"`
+	GateK   int        `json:"gate_k,omitempty"` // handlers of the first GateK stanzas wait for the next one to start
 }
 
 func vfGenInbound(r *rand.Rand, n int, ns string, allowSMAnswer bool, tag string) []vfInElem {
@@ -170,19 +171,26 @@ func vfC05RunClientTCP(cs *vfC05Case) vfC05Result {
 	var gateOnce sync.Once
 	hr := rand.New(rand.NewSource(cs.Seed + 1))
 	var hmu sync.Mutex
-	firstId, secondId := "", ""
+	// gate: the handlers of the first K stanzas all wait until the handler of stanza K+1 has started. Routing is
+	// "concurrently for a client": whatever K, the receive loop must go on reading and dispatching while they wait.
+	waiters := map[string]bool{}
+	secondId := ""
 	if cs.Gate {
-		n := 0
+		var ids []string
 		for _, e := range cs.Elems {
 			if e.Stanza {
-				n++
-				if n == 1 {
-					firstId = e.Id
-				} else if n == 2 {
-					secondId = e.Id
-					break
-				}
+				ids = append(ids, e.Id)
 			}
+		}
+		k := 1
+		if cs.GateK > 0 {
+			k = cs.GateK
+		}
+		if len(ids) > k {
+			for _, id := range ids[:k] {
+				waiters[id] = true
+			}
+			secondId = ids[k]
 		}
 	}
 	var gateTimedOut int32
@@ -191,7 +199,7 @@ func vfC05RunClientTCP(cs *vfC05Case) vfC05Result {
 			if id == secondId {
 				gateOnce.Do(func() { close(gate2) })
 			}
-			if id == firstId {
+			if waiters[id] {
 				select {
 				case <-gate2:
 				case <-time.After(15 * time.Second):
@@ -426,6 +434,10 @@ func vfC05RunClientWS(cs *vfC05Case) vfC05Result {
 			}
 		}
 		close(sentAll)
+		if cs.End == "fin" {
+			w.Close() // the connection is lost right after the burst: what was completely received must still be routed
+			return
+		}
 		<-rdone
 	})
 	defer peer.Stop()
@@ -434,6 +446,10 @@ func vfC05RunClientWS(cs *vfC05Case) vfC05Result {
 	if err != nil {
 		res.connectErr = err
 		return res
+	}
+	if cs.End == "fin" {
+		// slow handlers: messages pile up in the transport's queue while the connection goes away
+		obs.handlerDelay = func(id string) { time.Sleep(300 * time.Microsecond) }
 	}
 	obs.catchAll(router)
 	if err := c.Connect(); err != nil {
@@ -493,8 +509,15 @@ func vfC05Judge(run *vfkit.Run, cs *vfC05Case, res vfC05Result) {
 	}
 	for _, e := range res.errs {
 		if strings.HasPrefix(e, "GATE") {
-			run.Violation("C05/client-routing-not-concurrent", e, cs)
+			k := "C05/client-routing-not-concurrent"
+			if cs.GateK > 2 {
+				k = "C05/client-routing-concurrency-bounded"
+			}
+			run.Violation(k, fmt.Sprintf("%s (%d handlers were waiting for the next stanza to be dispatched)", e, cs.GateK), cs)
 		}
+	}
+	if cs.Gate && cs.GateK > 2 && len(res.errs) == 0 {
+		run.Count("gate_cases_many_waiting_handlers", 1)
 	}
 	var sent []string
 	for _, e := range cs.Elems {
@@ -613,7 +636,13 @@ func TestVf_C05(t *testing.T) {
 			cs.SM = r.Intn(2) == 0
 			cs.End = []string{"sentinel", "sentinel", "fin", "rst"}[r.Intn(4)]
 			cs.Gate = r.Intn(3) == 0 && cs.End != "rst" // after a reset the second stanza may never arrive
+			if cs.Gate {
+				cs.GateK = []int{1, 2, 8, 33, 40, 100}[r.Intn(6)]
+			}
 			cs.Elems = vfGenInbound(r, 1+r.Intn(nelem), "", true, fmt.Sprintf("c%d", c))
+			if cs.Gate && cs.GateK >= 8 {
+				cs.Elems = vfGenInbound(r, 2*cs.GateK+10+r.Intn(20), "", true, fmt.Sprintf("c%d", c))
+			}
 		case 4, 5:
 			cs.Mode = "component-tcp"
 			cs.End = []string{"sentinel", "fin"}[r.Intn(2)]
@@ -629,9 +658,32 @@ func TestVf_C05(t *testing.T) {
 		default:
 			cs.Mode = "client-ws"
 			cs.SM = r.Intn(2) == 0
-			cs.End = "sentinel"
+			cs.End = []string{"sentinel", "sentinel", "fin"}[r.Intn(3)]
 			cs.WSStyle = []string{"one", "several", "fragmented"}[r.Intn(3)]
 			cs.Elems = vfGenInbound(r, 1+r.Intn(nelem/2), "jabber:client", true, fmt.Sprintf("c%d", c))
+			if cs.End == "fin" {
+				// the websocket library closes the whole connection as soon as one of the client's own writes fails, and
+				// with it whatever the kernel had received but the reader had not yet taken: that is below go-xmpp.
+				// So the loss-after-burst case carries stanzas only (nothing makes the client write).
+				cs.SM = false
+				var st []vfInElem
+				for _, e := range cs.Elems {
+					if e.Stanza {
+						st = append(st, e)
+					}
+				}
+				for len(st) < 24 {
+					st = append(st, vfGenInbound(r, 30, "jabber:client", false, fmt.Sprintf("c%dx%d", c, len(st)))...)
+					var only []vfInElem
+					for _, e := range st {
+						if e.Stanza {
+							only = append(only, e)
+						}
+					}
+					st = only
+				}
+				cs.Elems = st
+			}
 		}
 		run.Case(cs)
 		if c < 2 {
